@@ -613,6 +613,9 @@ func (w *CliWorld) laneEnabled(l *laneState) bool {
 		if l.lane.WaitEnd && ss.EndStreams == 0 {
 			return false
 		}
+		if l.lane.AfterCancel && l.next == 0 && !w.callers[l.idx].cancelOffered {
+			return false
+		}
 		if len(ss.RST) > 0 && l.next == 0 {
 			// the client cancelled before we answered: a conforming server says nothing more on the stream
 			l.sentAll = true
@@ -857,6 +860,9 @@ func (w *CliWorld) EnvActions() []Action {
 		}
 		for i, f := range w.plan.Faults {
 			if w.faultsDone[i] {
+				continue
+			}
+			if f.AfterReqs > 0 && len(w.Streams) < f.AfterReqs {
 				continue
 			}
 			if f.AfterOps >= 0 && w.opsSent < f.AfterOps {
